@@ -10,6 +10,7 @@ from fractions import Fraction
 
 from ..aggtyping import matrix_value, param_variants, variant_label
 from ..values import NONE, TV, Z
+from ..report import norm_text
 from . import _agg
 
 THRESHOLD_CLASSES = {"UPGrad", "DualProj", "CAGrad"}  # the statement's carve-out for the norm_eps threshold
@@ -181,5 +182,24 @@ def check(index, ctx):
                 if isinstance(node, (ast.Global, ast.Nonlocal)):
                     ctx.violated("R3", f"{m.name}: {ast.unparse(node)}", "global/nonlocal state in the aggregation package", f"{m.path}:{node.lineno}")
     ctx.floor("paths analysed", n_paths, 40)
+    # R3, hidden state outside the objects: memoised helpers and module-level mutable containers of torchjd.aggregation
+    import ast as _ast
+
+    n_fn = 0
+    for fi in index.all_functions("torchjd.aggregation"):
+        n_fn += 1
+        for d in getattr(fi.node, "decorator_list", []):
+            t = norm_text(d)
+            if any(x in t for x in ("lru_cache", "functools.cache", "cached_property")) or t in ("cache",):
+                ctx.violated("R3", f"{fi.short}: decorated with {t}", "results are memoised on the identity of the argument tensors: after the matrix (or a configuration tensor) is modified in place, "
+                             "or once its id is reused, a later call returns the result of an earlier one", fi.loc())
+    for mod in index.modules.values():
+        if mod.name.startswith("torchjd.aggregation"):
+            for nm, e in mod.globals_.items():
+                if isinstance(e, (_ast.Dict, _ast.List, _ast.Set)) and not nm.startswith("__") or (isinstance(e, _ast.Call) and norm_text(e.func) in ("dict", "list", "set", "defaultdict", "WeakKeyDictionary", "weakref.WeakKeyDictionary")):
+                    if nm == "__all__":
+                        continue
+                    ctx.violated("R3", f"{mod.name}.{nm}: module-level mutable container", "hidden state shared between calls of the aggregators", f"{mod.path}:{getattr(e, 'lineno', 0)}")
+    ctx.ok("R3", "torchjd.aggregation: no memoisation / module-level mutable state", f"{n_fn} functions and the module globals scanned", "", nontrivial=False)
     _agg.common_evidence(ctx, index)
     ctx.assumptions.append("finiteness/totality of the result over extreme scales is NOT decided (overflow, conditioning and solver failures are runtime phenomena)")
